@@ -88,6 +88,7 @@ class Executor:
         self.uses_lsum = False
         self._lt_cache = {}
         self.dict_terms = {}              # id -> Ref term of every dict object met (bounded refutation pool)
+        self.ref_args = []                # reference-typed arguments of the function under verification
 
     # ------------------------------------------------------------------ utilities
     def fnid(self, name):
@@ -195,7 +196,13 @@ class Executor:
         expanded -- the keys (first BOUND positions) of every dictionary met so far, in the current and
         in the entry heap, plus one reference that is a key of none of them."""
         pool, seen = [], set()
-        heaps = [st.heap] + ([st.old.heap] if st.old is not None else [])
+        # keys are taken from the entry heap: keys inserted later are references that already existed
+        # (arguments, keys of other dictionaries), fresh dictionaries only receive such keys
+        heaps = [st.old.heap] if st.old is not None else [st.heap]
+        for a in self.ref_args:
+            if a.get_id() not in seen:
+                seen.add(a.get_id())
+                pool.append((z3.BoolVal(True), a))
         for d in self.dict_terms.values():
             for h in heaps:
                 sym.SIDE.extend(sym.dict_wf(h, d))
@@ -759,9 +766,19 @@ class Executor:
                         h.set(key, z3.Store(arr, obj, fresh('hv_d', arr.sort().range())))
                 h.set_ddom(obj, fresh('hv_dom', z3.ArraySort(Ref, B)))
             elif kind == 'trace':
+                # every component of the ghost trace (also those not touched so far) gets a fresh value
+                comps = {'$tr.kind': I, '$tr.fn': Clo, '$tr.recv': Ref, '$tr.resb': B, '$tr.resx': R, '$tr.resn': B}
+                for i in range(6):
+                    comps[f'$tr.r{i}'] = Ref
+                    comps[f'$tr.x{i}'] = R
+                    comps[f'$tr.b{i}'] = B
                 for key in list(h.maps):
-                    if key.startswith('$tr'):
-                        h.set(key, fresh('hv_tr', h.maps[key].sort()))
+                    if key.startswith('$tr.') and key not in comps:
+                        comps[key] = h.maps[key].sort().range()
+                for key, so in comps.items():
+                    h.set(key, fresh('hv_tr', z3.ArraySort(I, so)))
+                h.set('$trlen', fresh('hv_trlen', I))
+                st.assume(h.maps['$trlen'] >= 0)
 
     def havoc_all(self, st, protect):
         """Everything mutable gets a fresh value; new heap epoch for maps not touched so far."""
@@ -801,6 +818,11 @@ class Executor:
                 continue
             if a is None:
                 # map first touched after `pre`: there its value is the initial symbolic constant
+                if key == '$trlen':
+                    a = z3.Int('h:$trlen')
+                    if not any(k == 'trace' for k, _, _ in locs):
+                        bad.append(a != b)
+                    continue
                 if not z3.is_array(b):
                     continue
                 a = pre.heap.get(key, b.sort().domain(), b.sort().range())
